@@ -73,5 +73,12 @@ def run():
     _, st = tlcrun.run_tlc("FoldSys.tla", "FoldSys_sorted.cfg", "selftest_fold2", coverage=False)
     expect(st.get("invariant_violated") == "FoldRefines",
            "FoldSys.tla with the weakened shortcut condition of seeded change C01-m1 violates FoldRefines")
+    _, st = tlcrun.run_tlc("OptSys.tla", "OptSys_noconsumers.cfg", "selftest_opt1", coverage=False)
+    expect(st.get("invariant_violated") in ("OptRefines", "Disjoint"),
+           "OptSys.tla without the single-consumer test (seeded change C02-m1) violates "
+           f"{st.get('invariant_violated')}")
+    _, st = tlcrun.run_tlc("OptSys.tla", "OptSys_nooutputs.cfg", "selftest_opt2", coverage=False)
+    expect(st.get("invariant_violated") == "OptRefines",
+           "OptSys.tla without the not-an-output test (the defect repaired by 081decf) violates OptRefines")
     print("selftest", "passed" if ok else "FAILED")
     return 0 if ok else 1
